@@ -8,7 +8,8 @@ CORRESPONDENCE = "Ops.opStep (Path.pathGet/pathSet/pathRemove/pathHas, Conv) ~ (
 RULE = ("operation histories (length <= 25, thorough 60) of Set*/SetChild/Remove/Merge/Child and reads (typed getters, Has, CountField, "
         "IsDict/IsArray/GetFields) over a small overlapping address space: names a,b,c, dotted paths, indices 0..3 and past the end, "
         "negative and huge indices, with and without PathSep, on the root and on child handles obtained along the way (a handle is "
-        "dropped by the generator when an operation may detach its node); after every step the whole root is unpacked and compared "
+        "dropped by the generator when an operation may detach its node; handles on list elements are kept across removals in front of "
+        "them and must follow their node); after every step the whole root is unpacked and compared "
         "with the model's tree (state comparison), at the end every handle's view. Non-trivial: the history has a write followed by "
         "a read or removal at an overlapping address. Distinct by the multiset of (op kind, address class, outcome).")
 TRUSTED_BASE = ["Lean 4 kernel", "extractor: guards of idxField.GetValue/SetValue, fields.delAt, parseField",
@@ -28,6 +29,8 @@ def rand_addr(rng, sep):
     if sep and rng.chance(0.3):
         segs.insert(rng.below(len(segs)) + 1, str(rng.below(4)))
     name = (sep or ".").join(segs) if sep else segs[0]
+    if not sep and rng.chance(0.25):
+        name = str(rng.below(4))          # without a separator a name that spells an index is still that index
     idx = -1
     if r < 3:
         idx = rng.below(5)
@@ -125,6 +128,57 @@ def gen(rng, tier):
                 ops.append({"op": "get", "h": 0, "type": "String", "name": key + sep + name, "idx": idx, "opts": bo})
             kinds.add(k + "@child")
         yield {"k": "ops", "init": M([]), "optsInit": bo, "ops": ops, "cmpHandles": True, "_tag": "ops/child", "_sig": "child:" + ",".join(sorted(kinds)), "_nt": True}
+
+
+    # handles on list elements that are shifted by removals in front of them: a handle follows its node
+    for _ in range(n // 4):
+        sep = "."
+        bo = [opt("PathSep", sep)]
+        m = 3 + rng.below(3)
+        L = [M([("x%d" % i, U(i + 1))] + ([("inner", A([M([("q", U(9))]), U(5)]))] if rng.chance(0.3) else [])) for i in range(m)]
+        init = M([("l", A(L)), ("keep", U(1))])
+        ops = []
+        handles = {}          # handle number -> current index of its element (generator's bookkeeping)
+        nh = 0
+        kinds = set()
+        for _ in range(1 + rng.below(2)):
+            j = 1 + rng.below(m - 1)
+            nh += 1
+            if rng.chance(0.5):
+                ops.append({"op": "child", "h": 0, "name": "l", "idx": j, "opts": bo})
+            else:
+                ops.append({"op": "child", "h": 0, "name": "l.%d" % j, "idx": -1, "opts": bo})
+            handles[nh] = j
+        length = m
+        for _ in range(2 + rng.below(6)):
+            r = rng.below(10)
+            live = [h for h, j in handles.items() if j is not None]
+            if r < 3 and length > 1:
+                i = rng.below(length)
+                ops.append({"op": "remove", "h": 0, "name": "l", "idx": i, "opts": bo})
+                length -= 1
+                for h, j in list(handles.items()):
+                    if j is None: continue
+                    handles[h] = None if j == i else (j - 1 if j > i else j)
+                kinds.add("remove-before" if any(j is not None for j in handles.values()) else "remove")
+            elif r < 7 and live:
+                h = rng.pick(live)
+                nm = rng.pick(["w", "x0", "z.y"])
+                ops.append({"op": "set", "h": h, "name": nm, "idx": -1, "val": rng.pick(SETVALS), "opts": bo})
+                ops.append({"op": "get", "h": 0, "type": "String", "name": "l.%d.%s" % (handles[h], nm), "idx": -1, "opts": bo})
+                kinds.add("write-through-handle")
+            elif r < 9 and live:
+                h = rng.pick(live)
+                nm = rng.pick(["v", "x1"])
+                ops.append({"op": "set", "h": 0, "name": "l.%d.%s" % (handles[h], nm), "idx": -1, "val": rng.pick(SETVALS), "opts": bo})
+                ops.append({"op": "get", "h": h, "type": "String", "name": nm, "idx": -1, "opts": bo})
+                kinds.add("write-through-parent")
+            elif live:
+                ops.append({"op": "info", "h": rng.pick(live)})
+        if any(j is None for j in handles.values()):
+            continue          # a handle into a removed element is a detached config: outside the tree model
+        yield {"k": "ops", "init": init, "optsInit": bo, "ops": ops, "cmpHandles": True, "_tag": "ops/shifted-handle",
+               "_sig": "shift:" + ",".join(sorted(kinds)) + ":%d" % len(handles), "_nt": True}
 
 
 def nontrivial(case, impl):
